@@ -24,6 +24,7 @@ RULE = (
     "task, component, workflow, product, team, workplace, organization; extract_*_list == objects (by identity) whose log shows "
     "the state at all requested times; set_last_datetime: init+(time-1)*unit == date. The quick and thorough tiers "
     "also enumerate EVERY sequence of length <= 6 (thorough <= 8) for the four encoders; thorough adds an "
+    'One case in four gives every object of a kind the same (default) name. '
     "atheris (libFuzzer) campaign on the encoders with the same oracle inside the target. Non-trivial = a "
     "sequence with at least 3 state changes; distinct by case hash."
 )
